@@ -1099,6 +1099,18 @@ def remove_duplicate_functions(source: str, preserve: Collection[str]) -> str:
     for node in core.walk(root, ast.Name):
         names[node.id].append(node)
 
+    for funcdef in sorted(delete, key=lambda node: node.lineno):
+        if any(
+            core.has_ignore_comment(source, core.Range(*core.get_charnos(use, source)))
+            for use in names[funcdef.name]
+        ):
+            # A use on an ignored line cannot be redirected, so this duplicate has to stay
+            delete.discard(funcdef)
+            del renamings[funcdef.name]
+
+    if not delete and not renamings:
+        return source
+
     node_renamings = collections.defaultdict(set)
     for name, substitute in renamings.items():
         for node in names[name]:
